@@ -1,3 +1,4 @@
+import MdkVerif.Generated
 import MdkVerif.Model.Welcome
 import MdkVerif.Proofs.Welcome
 /-
@@ -453,5 +454,37 @@ theorem failed_preview_only_records (c : Client) (wr : Nat) (m : Invite) (h1 : m
     (process c wr m).1.store.welcomes = c.store.welcomes := by
   unfold process
   simp [h1, h2, proj, findGroup, savePw]
+
+/-- the full-strength reading of "accept puts the joiner in exactly the inviter's post-commit state" for
+    the group RECORD: after a successful accept the record is at the accepted invitation's epoch … -/
+def accept_record_full : Prop :=
+  ∀ (c c' : Client) (m : Invite), accept c m = (c', .done) →
+    ∀ g, findGroup c'.store m.gid = some g → g.epoch = m.epoch
+
+/-- … is false: `accept_welcome` keeps whatever record is stored under that group id.  Two invitations to
+    the same group are pending (eviction and re-invitation before either was looked at); the newer one
+    (epoch 3) was processed last; accepting the older one (epoch 1) joins MLS state 0 at epoch 1 while the
+    record stays at epoch 3.  `accept_after_process` is the partial statement (no other invitation to that
+    group id processed in between).  Replayed by `corpus/C16/accept_older_invitation.trace`. -/
+theorem accept_record_full_false : ¬ accept_record_full := by
+  intro h
+  let newer : Invite := { wInv with rid := some 1, epoch := 3, tok := 5 }
+  let c1 := (process (Client.empty .sql) 10 wInv).1
+  let c2 := (process c1 20 newer).1
+  have := h c2 (accept c2 wInv).1 wInv (by decide) { pendingGroup newer with state := 0 } (by decide)
+  revert this; decide
+
+/-! ## 6. the tie to the source -/
+
+/-- **welcome_step_order.**  The order of validation, storage and MLS steps the model transcribes is the
+    order `tools/gen_model.py` extracts from `process_welcome` / `accept_welcome` / `decline_welcome` on
+    every run; the staged welcome is built with `.replace_old_group()`; and `process_welcome` does not look
+    for an Active group of that id before writing.  When the code is repaired (id check before the first
+    write, held-group check) these facts change and this theorem — and with it the witnesses — must be
+    revisited. -/
+theorem welcome_step_order :
+    Welcome.processOrder = Generated.welcomeProcessOrder ∧ Welcome.acceptOrder = Generated.welcomeAcceptOrder ∧
+    Welcome.declineOrder = Generated.welcomeDeclineOrder ∧ Generated.welcomeReplacesOldGroup = true ∧
+    Generated.welcomeProcessChecksHeldGroup = false := by decide
 
 end MdkVerif.Props.C16
